@@ -24,6 +24,12 @@
 // x widget merged | one /Kids widget | two /Kids widgets on two pages, x every non-terminal level
 // also holding an ordinary text field | a further signature field | nothing.
 //
+// Enumerated family (annots.go): one signature field on a three page document whose widget has no
+// /P | a /P naming a page that does not list it | the right /P, x widget on the first / middle /
+// last page, x only / first / last entry of that /Annots, x 0, 1, 2 ordinary annotations on each
+// of the two other pages (links, notes, ordinary field widgets, widgets of another signature
+// field), x widget merged | /Kids widget, x /Annots direct | indirect array objects.
+//
 // (/SigFlags and /DSS are not named by the property: counted, not judged.)
 // On a document without signatures: the error is api.ErrNoSignatures and the sandbox directory
 // is byte-for-byte what it was (no output, no temporary left, input untouched).
@@ -53,6 +59,7 @@ type input struct {
 	Bytes  []byte
 	Signed bool   // has signatures (fields or /Perms)
 	Key    string // violation-key component if it is not the shape itself (enumerated families)
+	Mode   int    // 0: both modes, 1: new output only, 2: in place only
 }
 
 func main() { vk.Run("C29", "exploration", run) }
@@ -110,6 +117,32 @@ func run(t *vk.T) {
 		}
 	}
 	t.Count("hierarchy_family_members", int64(len(hs)))
+	// enumerated family of page /Annots situations (annots.go): the quick tier takes every
+	// (/P mode, widget page, widget position, bystander counts, bystander kinds) once, with the /Annots
+	// form, the widget form and the mode alternating; the thorough tier takes the full product
+	as := annotSpecs() // the four (/Annots form, widget form) combinations of a situation are consecutive
+	nAnn := 0
+	arng := t.RNG("annots")
+	pick, pickMode := 0, 0
+	for i, a := range as {
+		mode := 0
+		if t.Pick(1, 2) == 1 {
+			if i%4 == 0 {
+				pick, pickMode = arng.IntN(4), 1+arng.IntN(2)
+			}
+			if i%4 != pick {
+				continue
+			}
+			mode = pickMode
+		}
+		b, err := buildAnnotDoc(a)
+		if err != nil {
+			t.Broken("annots %s: %v", a.name(), err)
+		}
+		nAnn++
+		ins = append(ins, input{Name: a.name(), Shape: a.name(), Bytes: b, Signed: true, Key: a.class(), Mode: mode})
+	}
+	t.Count("annots_family_members", int64(nAnn))
 	pki, err := sigkit.NewPKI(sigkit.PKIOptions{}, now)
 	if err != nil {
 		t.Broken("pki: %v", err)
@@ -140,6 +173,9 @@ func run(t *vk.T) {
 	vk.Parallel(len(ins)*2, func(k int) {
 		in := ins[k/2]
 		inPlace := k%2 == 1
+		if in.Mode != 0 && (in.Mode == 2) != inPlace {
+			return
+		}
 		runCase(t, in, inPlace, k)
 	})
 }
@@ -620,9 +656,24 @@ type shapeDoc struct {
 	pageDicts        []pdfgen.Dict
 	annots           []pdfgen.Array
 	fields           pdfgen.Array
+	indirectAnnots   bool // every page's /Annots is an indirect array object of its own
 }
 
 func newShapeDoc(label string) *shapeDoc {
+	s := newBareShapeDoc(label)
+	doc := s.doc
+	// an ordinary annotation and an ordinary text field on page 1, always
+	link := doc.Add(pdfgen.D("Type", pdfgen.Name("Annot"), "Subtype", pdfgen.Name("Text"), "Rect", pdfgen.Rect(10, 10, 30, 30), "Contents", pdfgen.String("plain note")))
+	s.annots[0] = append(s.annots[0], link)
+	txt := doc.Alloc()
+	doc.Put(txt, s.widget(0, "FT", pdfgen.Name("Tx"), "T", pdfgen.String("plain"), "V", pdfgen.String("keep me"), "DA", pdfgen.String("/F1 10 Tf 0 g")))
+	s.annots[0] = append(s.annots[0], txt)
+	s.fields = pdfgen.Array{txt}
+	return s
+}
+
+// newBareShapeDoc: the pages only, no annotation and no field yet.
+func newBareShapeDoc(label string) *shapeDoc {
 	s := &shapeDoc{doc: pdfgen.NewDoc()}
 	doc := s.doc
 	s.pagesRef, s.catRef = doc.Alloc(), doc.Alloc()
@@ -635,13 +686,6 @@ func newShapeDoc(label string) *shapeDoc {
 		s.pageDicts = append(s.pageDicts, pdfgen.D("Type", pdfgen.Name("Page"), "Parent", s.pagesRef, "MediaBox", pdfgen.Rect(0, 0, float64(500+i), 800),
 			"Resources", pdfgen.D("Font", pdfgen.D("F1", s.font)), "Contents", cs))
 	}
-	// an ordinary annotation and an ordinary text field on page 1, always
-	link := doc.Add(pdfgen.D("Type", pdfgen.Name("Annot"), "Subtype", pdfgen.Name("Text"), "Rect", pdfgen.Rect(10, 10, 30, 30), "Contents", pdfgen.String("plain note")))
-	s.annots[0] = append(s.annots[0], link)
-	txt := doc.Alloc()
-	doc.Put(txt, s.widget(0, "FT", pdfgen.Name("Tx"), "T", pdfgen.String("plain"), "V", pdfgen.String("keep me"), "DA", pdfgen.String("/F1 10 Tf 0 g")))
-	s.annots[0] = append(s.annots[0], txt)
-	s.fields = pdfgen.Array{txt}
 	return s
 }
 
@@ -665,7 +709,11 @@ func (s *shapeDoc) finish(xrefStream bool) ([]byte, error) {
 	for i, r := range s.pageRefs {
 		d := s.pageDicts[i]
 		if len(s.annots[i]) > 0 {
-			d.Set("Annots", s.annots[i])
+			if s.indirectAnnots {
+				d.Set("Annots", doc.Add(s.annots[i]))
+			} else {
+				d.Set("Annots", s.annots[i])
+			}
 		}
 		doc.Put(r, d)
 		kids = append(kids, r)
